@@ -275,15 +275,28 @@ Section Machine.
     end.
   Definition run_prog (p : prog) (w : Z) : option bool * Z := run_alone 64 w (pstart p).
 
-  (* EVERY interleaving: P holds in every configuration reachable by any schedule, and within
-     `fuel` slots per path both threads have returned *)
-  Fixpoint explore (P : pconfig -> bool) (fuel : nat) (c : pconfig) : bool :=
-    P c &&
-    match fuel with
-    | O => pfinished (pc_a c) && pfinished (pc_b c)
-    | S n => (pfinished (pc_a c) || explore P n (pstep2 c 0%nat)) &&
-             (pfinished (pc_b c) || explore P n (pstep2 c 1%nat))
+  (* a thread that can never move: an unrecognised program, or a Set/Unset call whose method was
+     not recognised (no atomic calls) *)
+  Definition pblocked (t : pthread) : bool :=
+    match pt_prog t with
+    | PUnknown => true
+    | PCall set _ _ => match nth_error (call_ops set) (pt_k t) with None => true | Some _ => false end
+    | _ => false
     end.
+
+  (* EVERY interleaving: P holds in every configuration reachable by any schedule, and within
+     `fuel` slots per path both threads have returned
+  (written with `if` throughout: andb/orb evaluate both arguments under vm_compute) *)
+  Fixpoint explore (P : pconfig -> bool) (fuel : nat) (c : pconfig) : bool :=
+    if P c then
+      match fuel with
+      | O => if pfinished (pc_a c) then pfinished (pc_b c) else false
+      | S n =>
+          if (if pfinished (pc_a c) then true else if pblocked (pc_a c) then false else explore P n (pstep2 c 0%nat))
+          then (if pfinished (pc_b c) then true else if pblocked (pc_b c) then false else explore P n (pstep2 c 1%nat))
+          else false
+      end
+    else false.
 
   (* a schedule leading to a configuration where P fails (the check prints it) *)
   Fixpoint find_bad (P : pconfig -> bool) (fuel : nat) (c : pconfig) : option (list nat) :=
@@ -291,10 +304,10 @@ Section Machine.
     match fuel with
     | O => None
     | S n =>
-        match (if pfinished (pc_a c) then None else find_bad P n (pstep2 c 0%nat)) with
+        match (if pfinished (pc_a c) || pblocked (pc_a c) then None else find_bad P n (pstep2 c 0%nat)) with
         | Some s => Some (0%nat :: s)
         | None =>
-            match (if pfinished (pc_b c) then None else find_bad P n (pstep2 c 1%nat)) with
+            match (if pfinished (pc_b c) || pblocked (pc_b c) then None else find_bad P n (pstep2 c 1%nat)) with
             | Some s => Some (1%nat :: s)
             | None => None
             end
@@ -372,3 +385,49 @@ Definition submasks (M : Z) : list Z := filter (fun x => Z.land x M =? x) flag_s
 
 (* slots per path: more than any interleaving of two compound calls needs *)
 Definition protocol_fuel : nat := 40.
+
+(* the bits the channel protocol reads or writes: Closed, Closing, Channel, ChannelValue,
+   ChannelUpdated, ChannelProxy.  Every other bit of the word is carried along unchanged. *)
+Definition proto_mask : Z := 3852.
+(* every mask a program tests or writes lies inside proto_mask *)
+Fixpoint prog_in (p : prog) : bool :=
+  match p with
+  | PRet _ => true
+  | PUnknown => false
+  | PTest m a b => (Z.land m proto_mask =? m) && prog_in a && prog_in b
+  | PCall _ arg k => (Z.land arg proto_mask =? arg) && prog_in k
+  end.
+
+(* ---- a failing schedule of the channel protocol (printed by the check) ------------------- *)
+Fixpoint first_bad {A} (f : Z -> option A) (l : list Z) : option (Z * A) :=
+  match l with
+  | [] => None
+  | x :: r => match f x with Some a => Some (x, a) | None => first_bad f r end
+  end.
+
+Record protocol_witness : Type := ProtocolWitness {
+  pw_request : bool;              (* the e of SetChannel(e) *)
+  pw_word0 : Z;                   (* initial word *)
+  pw_sched : list nat;            (* thread ids: 0 = SetChannel, 1 = ChannelCanStop *)
+  pw_word : Z;                    (* the word reached *)
+  pw_setchannel : option bool;    (* answers, if returned *)
+  pw_canstop : option bool;
+  pw_next_poll : option bool      (* the answer of one more ChannelCanStop from that word *)
+}.
+
+(* the first (request, word, schedule) reaching a configuration where protocol_ok fails: the words
+   Ready|Channel|ChannelValue and Ready|Channel first, then every word made of protocol bits *)
+Definition protocol_counterexample (mset munset : mutator) (poller : prog) (sc : bool -> prog)
+  : option protocol_witness :=
+  let words := 770 :: 258 :: submasks proto_mask in
+  let search e := first_bad (fun x => find_bad mset munset (protocol_ok mset munset poller e x) protocol_fuel
+                                               (pinit x (sc e) poller)) words in
+  let mk e (r : Z * list nat) :=
+    let '(x, s) := r in
+    let c := prun mset munset (pinit x (sc e) poller) s in
+    ProtocolWitness e x s (pc_word c) (pret (pc_a c)) (pret (pc_b c))
+                    (fst (run_prog mset munset poller (pc_word c))) in
+  match search false with
+  | Some r => Some (mk false r)
+  | None => match search true with Some r => Some (mk true r) | None => None end
+  end.
